@@ -218,7 +218,7 @@ def run_shape(spec, tier, mg):
                 r["status"] = common.VIOLATION
 
     for cs in spec["c02"]:
-        r = gradcase.run(cs, tier, PROP, mg, max_paths=40, max_seconds=30, timeout_ms=5000, on_path=on_path, skip_ties=True)
+        r = gradcase.run(cs, tier, PROP, mg, max_paths=800, max_seconds=60, timeout_ms=5000, on_path=on_path, skip_ties=True)
         res["paths"] += r["paths"]
         for k in ("unsat", "sat", "unknown"):
             res[k] += r[k]
